@@ -239,7 +239,12 @@ pub struct ExCase {
     /// 2 pure, 3..5 hash-sign (numbering of `entry_name`)
     pub entry: u8,
     pub script: [Fault; 3],
+    /// message number (the search below looks for messages on which the loop really runs to its limit)
+    #[serde(default)]
+    pub msg: u32,
 }
+
+fn ex_msg(i: u32) -> Vec<u8> { if i == 0 { b"long loop".to_vec() } else { format!("long loop message {i}").into_bytes() } }
 
 fn exhausting_key(p: &rf::Params) -> Vec<u8> {
     use crate::gen::{Pattern, Seed32, SkSpec};
@@ -255,13 +260,14 @@ pub fn check_exhausting(c: &ExCase, st: &mut Stats) -> CheckResult {
         Ok(k) => k,
         Err(_) => return Ok(()), // judged by C10
     };
-    let data = gen::prg_bytes(u64::from(c.set) * 31 + u64::from(c.entry), "c12-ex", 96);
+    let data = gen::prg_bytes(if c.msg == 0 { u64::from(c.set) * 31 + u64::from(c.entry) } else { u64::from(c.entry) }, "c12-ex", 96);
     let mut rng = TestRng::with_faults(&data, c.script.to_vec(), true);
     let mode = MODES[(c.entry - 2) as usize % 4];
     st.eval();
     st.nontrivial(c);
     let t = std::time::Instant::now();
-    let outcome = guarded(|| sk.sign(&mut rng, b"long loop", &[1, 2, 3], mode));
+    let m = ex_msg(c.msg);
+    let outcome = guarded(|| sk.sign(&mut rng, &m, &[1, 2, 3], mode));
     st.maximum(&format!("sign_ms_set{}", p.id), t.elapsed().as_millis() as i64);
     let any_fault_hit = rng.log.iter().any(|r| r.via == "try_fill_bytes" && !r.ok);
     st.class(&format!("requests={}", rng.requests()));
@@ -285,16 +291,54 @@ pub fn check_exhausting(c: &ExCase, st: &mut Stats) -> CheckResult {
     }
 }
 
+const EX_SCRIPTS: [[Fault; 3]; 4] = [[Fault::None; 3], [Fault::None, Fault::ErrBefore, Fault::None], [Fault::None, Fault::ErrAfter(16), Fault::ErrBefore], [Fault::ErrBefore, Fault::None, Fault::None]];
+
 fn exhausting_cases() -> Vec<ExCase> {
     let mut v = Vec::new();
     for set in 0..3u8 {
         for entry in 2..6u8 {
-            for script in [[Fault::None; 3], [Fault::None, Fault::ErrBefore, Fault::None], [Fault::None, Fault::ErrAfter(16), Fault::ErrBefore], [Fault::ErrBefore, Fault::None, Fault::None]] {
-                v.push(ExCase { set, entry, script });
+            for script in EX_SCRIPTS {
+                v.push(ExCase { set, entry, script, msg: 0 });
             }
         }
     }
     v
+}
+
+/// The loop is exhausted only for a few per cent of (message, rnd) pairs even with the hostile key (ML-DSA-44 is the
+/// most favourable set): search messages on which a healthy signing call returns Err, then run the fault scripts on
+/// exactly those. (The search asks the library's internal interface, which takes rnd as an argument; on the unchanged
+/// tree the answer is "rejection loop did not terminate".)
+fn exhausted_loop_cases(tries: u32) -> (Vec<ExCase>, u32) {
+    use rayon::prelude::*;
+    let libr = libs()[0];
+    let p = libr.p();
+    let key = exhausting_key(&p);
+    let mut out = Vec::new();
+    let mut found = 0;
+    for entry in [2u8, 3] {
+        let hits: Vec<u32> = (1..=tries)
+            .into_par_iter()
+            .filter(|i| {
+                let _wd = crate::engine::watch(|| format!("C12/long_loop search: entry {entry} message {i}"));
+                let Ok(Ok(sk)) = guarded(|| libr.sk_from_bytes(&key)) else { return false };
+                let data = gen::prg_bytes(u64::from(entry), "c12-ex", 96);
+                let rnd: [u8; 32] = core::array::from_fn(|k| data[k]);
+                let mode = MODES[(entry - 2) as usize % 4];
+                // through the internal interface (Algorithm 7 on the formatted message with rnd given directly): no
+                // generator is involved, so what an entry point does about its generator cannot hide the exhaustion
+                let m_prime = rf::format_message(mode, &ex_msg(*i), &[1, 2, 3]);
+                matches!(guarded(|| sk.internal_sign(&m_prime, &[], rnd)), Ok(Err(_)))
+            })
+            .collect();
+        found += hits.len() as u32;
+        for i in hits.into_iter().take(2) {
+            for script in EX_SCRIPTS {
+                out.push(ExCase { set: 0, entry, script, msg: i });
+            }
+        }
+    }
+    (out, found)
 }
 
 /// What the OS-RNG entry points return as their FIRST results in a fresh process (one line per call).
@@ -320,6 +364,68 @@ pub fn os_rng_probe_lines() -> Vec<String> {
         }
     }
     out
+}
+
+/// fork(): the process makes `warm` OS-RNG calls, forks, and parent and child each report their next OS-RNG results.
+/// Must be called before any other thread exists in the process (vcheck handles the command first thing in main).
+pub fn os_rng_fork_probe(warm: u32) -> String {
+    use std::io::{Read, Write};
+    for _ in 0..warm {
+        let _ = guarded(|| libs()[0].keygen_os().is_ok());
+    }
+    let mut fds = [0i32; 2];
+    if unsafe { libc::pipe(fds.as_mut_ptr()) } != 0 {
+        return "pipe failed".into();
+    }
+    let pid = unsafe { libc::fork() };
+    if pid < 0 {
+        return "fork failed".into();
+    }
+    let mine = os_rng_probe_lines().join("\n");
+    if pid == 0 {
+        let mut w = unsafe { <std::fs::File as std::os::fd::FromRawFd>::from_raw_fd(fds[1]) };
+        let _ = w.write_all(mine.as_bytes());
+        drop(w);
+        unsafe { libc::_exit(0) };
+    }
+    unsafe { libc::close(fds[1]) };
+    let mut r = unsafe { <std::fs::File as std::os::fd::FromRawFd>::from_raw_fd(fds[0]) };
+    let mut theirs = String::new();
+    let _ = r.read_to_string(&mut theirs);
+    let mut status = 0i32;
+    unsafe { libc::waitpid(pid, &mut status, 0) };
+    let mut out = String::new();
+    for (a, b) in mine.lines().zip(theirs.lines()) {
+        out.push_str(&format!("parent {a}\nchild {b}\n"));
+    }
+    out
+}
+
+fn os_rng_after_fork(rep: &mut Report) {
+    let sub = "os_rng_after_fork";
+    let Ok(exe) = std::env::current_exe() else { return };
+    for warm in [1u32, 3, 5] {
+        let out = match std::process::Command::new(&exe).args(["osrng-fork", &warm.to_string()]).output() {
+            Ok(o) if o.status.success() => String::from_utf8_lossy(&o.stdout).to_string(),
+            other => {
+                rep.note(format!("{sub}: probe process failed ({:?}); skipped", other.map(|o| o.status)));
+                return;
+            }
+        };
+        let lines: Vec<&str> = out.lines().collect();
+        let st = rep.stats(sub);
+        st.evals(lines.len() as u64);
+        st.nontrivial_enumerated += lines.len() as u64 / 2;
+        for pair in lines.chunks(2) {
+            if pair.len() == 2 && !pair[0].contains("Err(") && !pair[0].contains("panic") {
+                let (a, b) = (pair[0].trim_start_matches("parent "), pair[1].trim_start_matches("child "));
+                if a == b && !rep.violations.iter().any(|v| v.sub == sub) {
+                    let what: String = a.split(' ').filter(|w| w.starts_with("set=") || !w.contains('=')).collect::<Vec<_>>().join(" ");
+                    rep.violation(sub, Fail::new(format!("os_rng_identical_after_fork:{}", what.replace(' ', ":")), format!("{what}: parent and child of a fork() (after {warm} earlier OS-RNG call(s)) obtain the same result from the OS-RNG entry point")), json!({"probe": "vcheck osrng-fork", "warm_up_calls": warm}));
+                }
+            }
+        }
+    }
 }
 
 /// Fresh processes: the first OS-RNG results of three separately started processes must all differ
@@ -410,7 +516,13 @@ pub fn run(ctx: &Ctx, rep: &mut Report) {
     });
     os_rng(rep);
     os_rng_across_processes(rep);
-    crate::engine::run_list(rep, "long_loop_key", &exhausting_cases(), check_exhausting);
+    os_rng_after_fork(rep);
+    let mut ex = exhausting_cases();
+    let (more, found) = exhausted_loop_cases(ctx.n(96, 512));
+    rep.note(format!("long_loop_key: {found} (entry point, message) pairs on which a healthy signing call with the hostile ML-DSA-44 key ran its loop to the limit; fault scripts replayed on {}", more.len() / EX_SCRIPTS.len()));
+    rep.stats("long_loop_key").class_n("search:messages_with_exhausted_loop", u64::from(found));
+    ex.extend(more);
+    crate::engine::run_list(rep, "long_loop_key", &ex, check_exhausting);
 }
 
 pub fn replay(ctx: &Ctx, sub: &str, case: &Value) -> Option<CheckResult> {
